@@ -228,6 +228,20 @@ def analyse(rep):
         rep.ok('C16.date', '%s date codec' % FILE, 'two-digit years are read and written through %%y in all %d places' % len(pivot))
     if len(pivot) < 5:
         rep.error('C16.date: only %d strptime/strftime(%%y) sites found in the date codec, 5 confirmed on the reference tree' % len(pivot))
+    # --- a date branch that drops trailing zero fields may only serve formats with an optional or variable part
+    for n in ast.walk(ast.Module(body=date_if.body, type_ignores=[])):
+        if isinstance(n, ast.If) and isinstance(n.test, ast.Compare) and src(n.test.left) == fmtvar:
+            trims = [x for st in n.body for x in ast.walk(st) if isinstance(x, ast.Subscript) and isinstance(x.slice, ast.Slice) and x.slice.upper is not None
+                     and isinstance(x.slice.upper, ast.UnaryOp) and isinstance(x.slice.upper.op, ast.USub)]
+            c = n.test.comparators[0]
+            vals = [c.value] if isinstance(c, ast.Constant) else [e_.value for e_ in getattr(c, 'elts', []) if isinstance(e_, ast.Constant)]
+            for fm in vals:
+                if trims:
+                    rep.check('..' in fm or '[' in fm, 'C16.date', FILE, '_encode_value', 'format %r in the branch of `%s`' % (fm, src(trims[0])), n.lineno,
+                              'date format %r is of fixed length, but its encoder branch drops trailing 00 fields (%s): the element is shorter than the '
+                              'characters info() reads back, or decodes to a value of another kind' % (fm, src(trims[0])), what='%s not trimmed' % fm)
+                else:
+                    rep.ok('C16.date', '%s:%d' % (FILE, n.lineno), 'format %s is written at full width' % fm)
     # --- decimal formats
     for (f, t), e in sorted(pairs.items()):
         if t == 'decimal':
@@ -251,6 +265,15 @@ def analyse(rep):
         rep.check(isinstance(val, int) and val > 0, 'C16.length', reg.rel, e.rng, 'format="%s" type="%s"' % (f, t), e.line,
                   '_max_length(%r, %r) is not defined (%s): info()/encode() fail for this application identifier' % (f, t, err or val),
                   what='_max_length(%r, %r) = %r' % (f, t, val))
+        # the same number read off the format by the grammar of the registry (components joined by '+', each <class>[..]<k>, optional ones
+        # in brackets): the characters info() cuts off for a value must be as many as its components can hold
+        comps_ = f.split('+')
+        if isinstance(val, int) and all(re.match(r'^\[?[NXYZ](\.\.)?[0-9]+\]?$', c_) for c_ in comps_):
+            want = sum(int(re.search(r'([0-9]+)\]?$', c_).group(1)) for c_ in comps_) + (1 if t == 'decimal' else 0)
+            rep.check(val == want, 'C16.length', reg.rel, e.rng, 'format="%s" type="%s" (value)' % (f, t), e.line,
+                      '_max_length(%r, %r) is %r, but the components of the format hold %d characters%s: info() cuts the value at the wrong place while '
+                      'encode() writes all of it' % (f, t, val, want, ' (with the decimal position digit)' if t == 'decimal' else ''),
+                      what='_max_length(%r, %r) == %d' % (f, t, want))
     # --- padding agrees with the decoder
     pbody = strip_doc(pad.body)
     if not (len(pbody) == 2 and isinstance(pbody[0], ast.If) and isinstance(pbody[1], ast.Return)):
@@ -337,6 +360,32 @@ def analyse(rep):
     re_, ri_ = reg_var(encf), reg_var(inf)
     rep.check(("%s.get('fnc1', False)" % re_) in src(encf) and ("%s.get('fnc1', False)" % ri_) in src(inf), 'C16.framing', FILE, 'encode', "info.get('fnc1', False)", encf.lineno,
               'encoder and decoder no longer use the same fnc1 test to tell variable-length identifiers')
+    # the list is chosen by that flag alone: a value-dependent choice (e.g. "already fills the field") emits variable-length identifiers
+    # without terminator, which info() still scans to the next separator
+    if jb is not None:
+        for n in ast.walk(encf):
+            if isinstance(n, ast.If) and any(isinstance(c_, ast.Call) and isinstance(c_.func, ast.Attribute) and c_.func.attr == 'append' and src(c_.func.value) == fx
+                                             for st in n.body + n.orelse for c_ in ast.walk(st)):
+                t_ = n.test.operand if isinstance(n.test, ast.UnaryOp) and isinstance(n.test.op, ast.Not) else n.test
+                rep.check(src(t_) in ("%s.get('fnc1', False)" % re_, "%s.get('fnc1')" % re_, "'fnc1' in %s" % re_, "bool(%s.get('fnc1', False))" % re_),
+                          'C16.framing', FILE, 'encode', src(n.test)[:120], n.lineno,
+                          'whether a value is written with the fixed-length group or as a terminated variable-length element depends on more than the '
+                          'fnc1 flag of its identifier (%s): the decoder decides by the flag alone' % src(n.test)[:80])
+    # the separator is a string, not a set of characters: strip()/lstrip()/rstrip() with it also eat value characters that occur in it
+    nsep = 0
+    for fn_ in (inf, encf):
+        if len(fn_.args.args) < 2:
+            continue
+        sp = fn_.args.args[1].arg
+        for n in ast.walk(fn_):
+            if isinstance(n, ast.Call) and isinstance(n.func, ast.Attribute) and n.func.attr in ('strip', 'lstrip', 'rstrip') and n.args \
+                    and isinstance(n.args[0], ast.Name) and n.args[0].id == sp:
+                rep.fail('C16.framing', FILE, fn_.name, src(n)[:100], n.lineno,
+                         '%s treats the caller\'s separator as a set of characters: with a separator of several characters the first characters of the '
+                         'next element that occur in it are removed too' % src(n.func)[-20:])
+                nsep += 1
+    if not nsep:
+        rep.ok('C16.framing', '%s info/encode' % FILE, 'the separator is never used as a character set (strip family)')
     # --- value handed to the decoder is a slice of the element string
     numvar = inf.args.args[0].arg
     decs = [n for n in ast.walk(inf) if isinstance(n, ast.Call) and src(n.func) == '_decode_value']
